@@ -99,7 +99,7 @@ Definition mstep (s : mstate) (rec : val) : verdict :=
     Accept {| ms_tables := zupdate t (txt, false) (ms_tables s); ms_regs := ms_regs s; ms_tonotify := ms_tonotify s; ms_reqs := ms_reqs s |}
   else if kind =? 1 then
     match zlookup t (ms_tables s) with
-    | None => Reject (str "push-on-an-unknown-connection")
+    | None => Accept s   (* a connection made before the recording started (another proxy of the same process): not ours to judge *)
     | Some (hostkey, closing) =>
         if closing then Reject (str "request-registered-on-a-closing-connection")
         else match plookup (t, st) (ms_regs s) with
@@ -108,7 +108,7 @@ Definition mstep (s : mstate) (rec : val) : verdict :=
                  let s1 := {| ms_tables := ms_tables s; ms_regs := ((t, st), (req, rk)) :: ms_regs s; ms_tonotify := ms_tonotify s; ms_reqs := ms_reqs s |} in
                  if req =? 0 then Accept s1
                  else match zlookup req (ms_reqs s) with
-                      | None => Reject (str "push-for-a-request-that-never-started")
+                      | None => Accept s1   (* a request that started before the recording did *)
                       | Some q =>
                           if m_done q then Reject (str "request-written-again-after-it-was-answered")
                           else if negb (Nat.eqb (m_regs q) 0) then Reject (str "request-registered-in-two-places-at-once")
@@ -120,7 +120,8 @@ Definition mstep (s : mstate) (rec : val) : verdict :=
     end
   else if kind =? 2 then
     match plookup (t, st) (ms_regs s) with
-    | None => Reject (str "answer-delivered-for-a-stream-nothing-is-registered-on")
+    | None => if match zlookup t (ms_tables s) with Some _ => true | None => false end
+              then Reject (str "answer-delivered-for-a-stream-nothing-is-registered-on") else Accept s
     | Some (r0, _) =>
         let s1 := {| ms_tables := ms_tables s; ms_regs := premove (t, st) (ms_regs s); ms_tonotify := ms_tonotify s; ms_reqs := ms_reqs s |} in
         if negb (r0 =? req) then Reject (str "answer-delivered-to-another-request-than-the-one-registered-on-its-stream")
@@ -128,7 +129,7 @@ Definition mstep (s : mstate) (rec : val) : verdict :=
     end
   else if kind =? 4 then
     match zlookup t (ms_tables s) with
-    | None => Reject (str "closing-of-an-unknown-connection")
+    | None => Accept s
     | Some (hostkey, _) =>
         let mine := filter (fun e => fst (fst e) =? t) (ms_regs s) in
         let rest := filter (fun e => negb (fst (fst e) =? t)) (ms_regs s) in
@@ -136,7 +137,8 @@ Definition mstep (s : mstate) (rec : val) : verdict :=
     end
   else if kind =? 3 then
     match plookup (t, st) (ms_tonotify s) with
-    | None => Reject (str "close-notification-for-an-entry-that-was-not-pending-when-the-connection-closed")
+    | None => if match zlookup t (ms_tables s) with Some _ => true | None => false end
+              then Reject (str "close-notification-for-an-entry-that-was-not-pending-when-the-connection-closed") else Accept s
     | Some (r0, _) =>
         let s1 := {| ms_tables := ms_tables s; ms_regs := ms_regs s; ms_tonotify := premove (t, st) (ms_tonotify s); ms_reqs := ms_reqs s |} in
         if negb (r0 =? req) then Reject (str "close-notification-delivered-to-another-request")
@@ -152,7 +154,7 @@ Definition mstep (s : mstate) (rec : val) : verdict :=
     end
   else
     match zlookup req (ms_reqs s) with
-    | None => if req =? 0 then Accept s else Reject (str "step-of-a-request-that-never-started")
+    | None => Accept s   (* an internal request, or one that started before the recording did *)
     | Some q =>
         let setq (q' : mreq) := Accept {| ms_tables := ms_tables s; ms_regs := ms_regs s; ms_tonotify := ms_tonotify s; ms_reqs := zupdate req q' (ms_reqs s) |} in
         if kind =? 6 then
